@@ -25,6 +25,9 @@ Proof. exact (l007_keeps_reading letter digit space upper keywords_tab up_plain 
 Theorem C17_cli_tokens_preserved : forall t, lex_reading (i_cli_fix t) = lex_reading t.
 Proof. exact (cli_keeps_reading letter digit space upper keywords_tab up_plain up_idem up_nows sp_nodelim). Qed.
 
+Theorem C17_format_tokens_preserved : forall tab spaces final t, lex_reading (i_format tab spaces final t) = lex_reading t.
+Proof. exact (format_keeps_reading space upper sp_nodelim). Qed.
+
 (* ---- convergence: applying a fix twice is applying it once (all texts) ---- *)
 Theorem C17_l001_fix_idempotent : forall t, l001_fix (l001_fix t) = l001_fix t.
 Proof. exact l001_fix_idempotent. Qed.
@@ -34,6 +37,8 @@ Theorem C17_l003_fix_idempotent : forall t, i_l003_fix (i_l003_fix t) = i_l003_f
 Proof. exact (fun t => l003_fix_idempotent_mx space sp_nodelim 1 t (le_n 1)). Qed.
 Theorem C17_l010_fix_idempotent : forall t, l010_fix (l010_fix t) = l010_fix t.
 Proof. exact l010_fix_idempotent. Qed.
+Theorem C17_l007_fix_idempotent : forall t, i_l007_fix (i_l007_fix t) = i_l007_fix t.
+Proof. exact (l007_fix_idempotent letter digit upper keywords_tab up_plain up_letter up_idem). Qed.
 
 (* ---- re-lint: no violation of the rule remains after its fix ---- *)
 Theorem C17_l001_fix_clears : forall t, l001_check (l001_fix t) = [].
@@ -49,10 +54,12 @@ Print Assumptions C17_l003_tokens_preserved.
 Print Assumptions C17_l010_tokens_preserved.
 Print Assumptions C17_l007_tokens_preserved.
 Print Assumptions C17_cli_tokens_preserved.
+Print Assumptions C17_format_tokens_preserved.
 Print Assumptions C17_l001_fix_idempotent.
 Print Assumptions C17_l002_fix_idempotent.
 Print Assumptions C17_l003_fix_idempotent.
 Print Assumptions C17_l010_fix_idempotent.
+Print Assumptions C17_l007_fix_idempotent.
 Print Assumptions C17_l001_fix_clears.
 Print Assumptions C17_l002_fix_clears.
 Print Assumptions C17_l003_fix_clears.
